@@ -7,6 +7,7 @@ pub mod mcf;
 pub mod net;
 pub mod pipe;
 pub mod sched;
+pub mod serve;
 pub mod swaps;
 pub mod tour;
 pub mod trans;
